@@ -397,10 +397,14 @@ class Blocks:
             return {'kind': 'html', 'src': h, 'starts': None, 'exact': html_policy(self.mode, '<mark>replaced HTML</mark>', h)}
         if k == 5:
             self.kinds.add('comment')
-            return {'kind': 'comment', 'src': rng.choice(['// ' + plain(rng), '/*\n' + plain(rng) + '\n*/']), 'starts': None, 'exact': ''}
+            return {'kind': 'comment', 'src': rng.choice(['// ' + plain(rng), '//', '//' + plain(rng), '/*\n' + plain(rng) + '\n*/',
+                                                          '/*\n/\n*\n**\n/*\n */\n*/ x\n' + plain(rng) + '\n*/', '/**\n' + plain(rng) + '\n**/']),
+                    'starts': None, 'exact': ''}
         if k == 6:
             self.kinds.add('quote-paragraph')
             ls = [plain(rng) for _ in range(rng.randint(1, 2))]
+            if rng.random() < 0.2:
+                ls.insert(rng.randrange(1, len(ls) + 1), '')         # a bare '>' line inside the quote paragraph
             return {'kind': 'quote-paragraph', 'src': '\n'.join('>' + l for l in ls), 'starts': '<blockquote><p>',
                     'exact': '<blockquote><p>%s</p></blockquote>' % esc('\n'.join(ls))}
         # containers (distinct delimiters along the nesting path and inside)
